@@ -152,6 +152,90 @@ fn raw_logs(run: &mut Run, max_n_strict: usize, max_n_runs: usize) {
     run.cov_add("transitions", queries);
 }
 
+/// L1b: which kind a key is labelled with, on raw logs in which records share keys: every log of
+/// up to `max_n` records over 2 keys x {update, remove} x timestamps that stay or advance.
+/// "Most recent" is the record written last (timestamps never go back in a log, so among equal
+/// timestamps the later record is the more recent one).
+fn raw_kind_logs(run: &mut Run, max_n: usize) {
+    let ctx = NodeCtx::new(fresh_dir("c12kind"), 1000);
+    ctx.install();
+    let (mut logs, mut queries) = (0u64, 0u64);
+    // a record: (key 0/1, is_remove, advance the clock before it?)
+    let mut all: Vec<Vec<(usize, bool, bool)>> = vec![vec![]];
+    let mut frontier = all.clone();
+    for _ in 0..max_n {
+        let mut next = vec![];
+        for l in frontier.iter() {
+            for key in 0..2 {
+                for rm in [false, true] {
+                    for adv in [true, false] {
+                        if l.is_empty() && !adv {
+                            continue;
+                        }
+                        let mut m = l.clone();
+                        m.push((key, rm, adv));
+                        next.push(m);
+                    }
+                }
+            }
+        }
+        all.extend(next.iter().cloned());
+        frontier = next;
+    }
+    for l in all.iter().filter(|l| !l.is_empty()) {
+        Oplog::clean_op_log_metadata_files();
+        let mut ts = vec![];
+        {
+            let mut stream = Oplog::get_log_file_append_mode();
+            let mut t = 90u64;
+            for (key, rm, adv) in l.iter() {
+                if *adv {
+                    t += 10;
+                }
+                ts.push(t);
+                Oplog::try_write_op_log(&mut stream, Some(7), 100 + *key as u64, if *rm { &ReplicateOpp::Remove } else { &ReplicateOpp::Update }, t).unwrap();
+            }
+        }
+        logs += 1;
+        let describe = || l.iter().zip(ts.iter()).map(|((k, rm, _), t)| format!("{}@{}:k{}", if *rm { "remove" } else { "update" }, t, k)).collect::<Vec<_>>().join(" ");
+        let kinds_shape = || l.iter().map(|(k, rm, adv)| format!("{}{}k{}", if *adv { "" } else { "=" }, if *rm { "R" } else { "U" }, k)).collect::<Vec<_>>().join(" ");
+        for since in since_candidates(&ts) {
+            queries += 1;
+            let got: BTreeMap<usize, bool> = match std::panic::catch_unwind(|| read_operations_since(since)) {
+                Ok(m) => m.values().map(|r| ((r.key - 100) as usize, r.opp.to_u8() == ReplicateOpp::Remove.to_u8())).collect(),
+                Err(e) => {
+                    viol(run, "query-panic", format!("raw kinds {}", kinds_shape()), format!("log [{}] since {}: {}", describe(), since, panic_msg(&e)), json!({"engine":"c12-raw-kinds","log":describe(),"since":since}));
+                    continue;
+                }
+            };
+            for key in 0..2 {
+                // the last record of the key, if it is at or after `since`, decides
+                let last = l.iter().zip(ts.iter()).filter(|((k, _, _), _)| *k == key).last();
+                if let Some(((_, rm, _), t)) = last {
+                    if *t >= since {
+                        match got.get(&key) {
+                            None => viol(run, "record-missed", format!("raw kinds {} {}", kinds_shape(), rel_since(&ts, since)), format!("log [{}] since {}: key k{} not returned", describe(), since, key), json!({"engine":"c12-raw-kinds","log":describe(),"since":since})),
+                            Some(g) if g != rm => viol(
+                                run,
+                                "operation-mislabelled",
+                                format!("raw kinds {} {}", kinds_shape(), rel_since(&ts, since)),
+                                format!("log [{}] since {}: key k{} labelled {}, its most recent record is {}", describe(), since, key, if *g { "remove" } else { "update" }, if *rm { "a remove" } else { "an update" }),
+                                json!({"engine":"c12-raw-kinds","log":describe(),"since":since}),
+                            ),
+                            _ => {}
+                        }
+                    }
+                }
+            }
+        }
+    }
+    let _ = std::fs::remove_dir_all(&ctx.dir);
+    run.cov_add("raw_kind_logs", logs);
+    run.cov_add("raw_kind_queries", queries);
+    run.cov_add("states", logs);
+    run.cov_add("transitions", queries);
+}
+
 #[derive(Clone, Copy, Debug, PartialEq, Eq, PartialOrd, Ord)]
 pub enum Op {
     CreateDb(usize),
@@ -526,6 +610,7 @@ pub fn run(run: &mut Run) {
     let quick = run.quick();
     rotation(run);
     raw_logs(run, if quick { 24 } else { 48 }, if quick { 9 } else { 11 });
+    raw_kind_logs(run, if quick { 3 } else { 5 });
     end_to_end(run, if quick { 4 } else { 5 });
     run.cov("exhaustive", json!(true));
     run.assume("a query may also return operations older than `since` (harmless for catch-up); only misses and wrong labels are violations");
